@@ -314,6 +314,8 @@ var reg = vk.Registry{
 	},
 }
 
+func init() { reg["sequence"] = vk.SequenceReplayer(reg) }
+
 func TestReplay(t *testing.T) { vk.RunReplay(t, reg) }
 
 func clipb(b []byte) []byte {
@@ -366,7 +368,7 @@ func TestSets(t *testing.T) {
 		if len(ts) <= 4 {
 			rec.Sample("set", c)
 		}
-		rec.Report(t, "set", checkSet(c))
+		rec.ReportSeq(t, "set", c, func() *vk.Violation { return checkSet(c) })
 	})
 }
 
@@ -421,7 +423,7 @@ func TestByteStrings(t *testing.T) {
 		if len(b) <= 40 {
 			rec.Sample("bytes", c)
 		}
-		rec.Report(t, "bytes", checkBytes(c))
+		rec.ReportSeq(t, "bytes", c, func() *vk.Violation { return checkBytes(c) })
 	})
 }
 
